@@ -32,13 +32,13 @@ PROPS['C17'] = dict(
 SPA = 'generator_spa:Generator_spa.'
 PROPS['C12'] = dict(
     title='Second-side lists rank exactly the agents that find them acceptable',
-    functions=[GS + 'create_pref_lists_from_other_lists', SPA + 'create_student_lec_lists', GS + 'create_ties_indicators', SPA + 'generate_instances', 'generator_ha_sm_hr:Generator_ha_sm_hr.generate_instances'],
+    functions=[GS + 'create_pref_lists_from_other_lists', SPA + 'create_student_lec_lists', GS + 'create_ties_indicators', SPA + 'generate_instances', 'generator_ha_sm_hr:Generator_ha_sm_hr.generate_instances', SPA + 'create_instance', 'generator_ha_sm_hr:Generator_ha_sm_hr.create_instance'],
     lemmas=['C12/spa-compose', 'LISTSET/empty-append', 'LISTSET/permute', 'LISTSET/iterate'],
     level_text='both inversion functions verified for all list shapes by loop invariants over the element-set view of lists (exactly-once = duplicate-free + membership iff); SPA composition lemma proves the lecturer statement; the list-set fact schemas are themselves proved from the definitions; both generate_instances functions are verified as wiring: for every accepted argument record, what is handed to create_instance (the writer) satisfies the property statement itself - second-side lists rank exactly those who rank them (SPA: who rank one of the lecturer\'s projects), each once - as a call-site obligation',
     harness=True, bound='<= 5 agents per side, <= 6 projects, <= 4 lecturers; whole generator runs n <= 6',
     trusted=['T10 random.shuffle permutes its argument in place; np.random.choice returns values of positive probability',
              'T10 np.random.choice(replace=False) returns distinct elements (precondition first-side-lists-duplicate-free)',
-             'create_instance itself (string assembly of the lists it is handed) is covered by the bounded generator runs'],
+             'T7 lexical layer: create_instance is verified over lines of blank-separated tokens (pyvc/models_text.py), not characters'],
     assumptions=['list-set view: facts instantiated by the engine at append/empty/shuffle/iteration, each justified by a LISTSET lemma',
                  'Python int is unbounded; list displays do not alias; the loop variable of `for x in lists: shuffle(x)` aliases the element (modelled)'])
 IOP = 'instance_options_parser:Instance_options_parser.'
@@ -180,14 +180,14 @@ PROPS['C10'] = dict(
 PROPS['C08'] = dict(
     title='Generated files are well-formed instances of the requested type and parameters',
     functions=[GS + 'create_quotas', SPA + 'create_project_lecturers', GS + 'create_ties_indicators', GS + 'create_pref_lists_original', GS + 'create_linear_distribution',
-               GS + 'create_string_pref', SPA + 'generate_instances', 'generator_ha_sm_hr:Generator_ha_sm_hr.generate_instances'] + [(IOP + 'parse', {'argv_fixed': {'matchingproblem': mp}}) for mp in ('ha', 'sm', 'hr', 'spa')],
+               GS + 'create_string_pref', SPA + 'generate_instances', 'generator_ha_sm_hr:Generator_ha_sm_hr.generate_instances', SPA + 'create_instance', 'generator_ha_sm_hr:Generator_ha_sm_hr.create_instance'] + [(IOP + 'parse', {'argv_fixed': {'matchingproblem': mp}}) for mp in ('ha', 'sm', 'hr', 'spa')],
     lemmas=['C08/shares', 'C08/spread-monotone', 'C17/sum-positive', 'C17/scaled-sum', 'C13/writer-shape', 'LISTSET/empty-append', 'LISTSET/permute', 'LISTSET/iterate'], level='other',
     level_text='proved for all parameters: quotas / targets / projects per lecturer are the even spreading (share k = total // n + [k < total % n]: larger shares first, spread <= 1, sum = total, monotone in the total hence lower <= target <= upper pointwise); first-side lists have between pmin and pmax distinct agents in range and the RNG preconditions hold (positive weights summing to one, k <= n2); tie indicators are 0 / 1 and constant for probability 0 / 1; the tie writer brackets maximal runs; every accepted argument vector satisfies the bounds the generators rely on (parse postconditions, all four types).  generate_instances (both generators) is verified as wiring: every callee precondition holds (so it never raises before writing), and create_instance is called with first-side lists of distinct in-range agents, tie flags of the same shape, one in-range lecturer per project, quotas with 0 <= lower <= (target <=) upper pointwise (spreading lemmas) and second-side lists as in C12.  NOT proved deductively (bounded stand-in): the text assembly inside create_instance (both generators), file names 0..k-1 and "every length in [pmin,pmax] can occur" (T10)',
     harness=True, bound='n <= 6 agents per side, numinst <= 2, tie probabilities {0, 0.3/0.4, 1}, skew {0.5, 1, 3, 10}',
     budget={'quick': 20, 'thorough': 300},
     trusted=['T10 numpy / random: randint in [a,b), choice(replace=False) returns distinct elements of its argument, choice never returns a value of probability 0, shuffle permutes, np.sum / array division as documented',
              'T8 file I/O', 'T9 argparse', 'int(a / b) == a // b for a + b < 2**53 (DESIGN 3.1)'],
-    assumptions=['create_instance text assembly and file naming: bounded stand-in only', 'generate_instances is verified for argument records satisfying the postconditions of Instance_options_parser.parse (C15)'])
+    assumptions=['create_instance is verified over the lexical view of its text (lines of blank-separated tokens; a colon is deleted by the reader; T7): header with the counts, one numbered line per agent carrying exactly the numbers / bracketed list handed over, second-side lists only when given, blank line, parameter block; the content of the parameter block (create_instance_info) and the file names 0.txt, 1.txt, ... are covered by the bounded stand-in only', 'generate_instances is verified for argument records satisfying the postconditions of Instance_options_parser.parse (C15)'])
 GETTER_HELPERS = ['_get_max_rank', '_get_cost', '_get_cost_sq', '_get_degree', '_get_profile', '_get_lec_abs_diffs', '_get_max_lec_abs_diff', '_get_sum_lec_abs_diff',
                   '_get_matching_string', '_get_matching_size', '_get_pair_assignments', '_get_pair_assignments_with_none', 'get_results', 'get_debug', '_pairs_string',
                   'check_stability', 'get_num_assignments_projects', 'get_num_assignments_lecturers', 'get_worst_rank_projects', 'get_worst_rank_lecturers']
@@ -205,12 +205,13 @@ PROPS['C09'] = dict(
     title='Every generated instance is solvable by the solver under the documented flags',
     functions=[GS + 'create_string_pref', FIO + '_get_simple_pref_list_and_ranks', GS + 'create_quotas', SPA + 'create_project_lecturers',
                GS + 'create_pref_lists_from_other_lists', SPA + 'create_student_lec_lists', FIO + '_set_lecturers', FIO + '_set_lecturer_ranks', FIO + '_create_pairs_row',
-               LP + 'upper_lower_constraints', LP + 'stability_constraints', MOD + 'check_stability', BF + 'is_valid', SPA + 'generate_instances', 'generator_ha_sm_hr:Generator_ha_sm_hr.generate_instances', FIO + '_import_from_file', FIO + 'import_model'],
-    lemmas=['C05/prefix-filter', 'C13/compose', 'C12/spa-compose', 'C09/rank-keys', 'C09/quota-order', 'C08/shares', 'C08/spread-monotone'], level='other',
+               LP + 'upper_lower_constraints', LP + 'stability_constraints', MOD + 'check_stability', BF + 'is_valid', SPA + 'generate_instances', 'generator_ha_sm_hr:Generator_ha_sm_hr.generate_instances', SPA + 'create_instance', 'generator_ha_sm_hr:Generator_ha_sm_hr.create_instance', FIO + '_import_from_file', FIO + 'import_model'],
+    lemmas=['C05/prefix-filter', 'C13/compose', 'C12/spa-compose', 'C09/rank-keys', 'C09/quota-order', 'C08/shares', 'C08/spread-monotone', 'C09/written-file-is-readable-2', 'C09/written-file-is-readable-3'], level='other',
     level_text='composition obligations between the generator-side and reader-side contracts, each proved for all sizes: the tie writer\'s postcondition is the tie reader\'s precondition (C13/compose); generated quotas satisfy 0 <= lower <= target <= upper pointwise (C09/quota-order from the spreading lemmas and the accepted-argument postcondition); project lecturers are in range; every (lecturer, student) key the reader looks up is on that lecturer\'s generated list (C09/rank-keys from C12/spa-compose).  both generate_instances functions hand the writer a well-formed instance, and _import_from_file / import_model read every file of the documented shape without error into a well-formed model (sizes_ok, pairs_ok, derived lists).  NOT proved deductively (bounded stand-in): the two ends of the text layer (create_instance turning its lists into lines; a text line denoting its tokens, T7), and that both solving modes are correct on the loaded instance (C01-C07 instantiated)',
     harness=True, bound='n <= 4 agents per side, all four types, LP with 0-2 criteria (+-pc, +-stab) and brute force on every generated file',
     budget={'quick': 30, 'thorough': 400},
     trusted=[T['T6'], T['T7'], 'T8 file I/O', 'T10 RNG'],
-    assumptions=['the two ends of the text layer (writer string assembly, lexer) and end-to-end solving: bounded stand-in only'])
+    assumptions=['writer -> reader is machine-checked at the level of lines of tokens: both create_instance functions are verified over the lexical view of the text they assemble, and lemmas C09/written-file-is-readable-2 / -3 prove every clause of the reader\'s precondition (the documented file format) from the writer\'s pre- and postcondition under -na 2 / -na 3 and -twopl iff second-side lists were written; T8 (the file reads back as the written lines) and the ghost tie decisions are modelling steps of those lemmas, the definition of elems is used in both directions',
+                 'T7 the character level (a line denotes its tokens) and end-to-end solving of the read model (= C01-C07 instantiated): bounded stand-in only'])
 NOT_APPLICABLE = {}
 NOTES = 'see DESIGN.md; ./check Cxx --tier quick|thorough; exit 0 held / 1 VIOLATION / 2 undecided / 3 checker error'
